@@ -13,7 +13,7 @@ LEVEL_NOTE = ("Lean theorems over the model of _LSHNearest (hyper-planes = recor
               "(planes from the tape) and by the twin against the collision set computed from mab._imp.table_to_plane, plus the "
               "metamorphic predict_expectations(c*X) = predict_expectations(X).")
 
-PROFILE = {"big_rate": 0.01, "big_small_batches": True, "name": "C11", "lp": G.CF_KINDS + G.LIN_KINDS, "np": ["lsh"],
+PROFILE = {"big_rate": 0.012, "big_small_batches": True, "big_batches": [40, 513, 701], "name": "C11", "lp": G.CF_KINDS + G.LIN_KINDS, "np": ["lsh"],
            "weights": {"fit": 1, "pfit": 3, "query": 5, "add": 1, "rem": 0.5, "warm": 0, "bad": 0.7},
            "bad_classes": ["width"]}    # a rejected partial_fit (wrong number of columns) must not disturb the positions
 
